@@ -805,7 +805,7 @@ def run_case(case, ctx):
 # generation
 # ---------------------------------------------------------------------------
 
-STRS = ["x y", "v.1", "é", "foo"]
+STRS = ["x y", "v.1", "é", "foo", "e\u0301"]  # the last one is the DEcomposed spelling of the third: another value, another directory
 
 
 def _opt(d):
@@ -826,12 +826,12 @@ UNIVERSES = {
             {
                 "a": st.integers(0, 2),
                 "b": st.sampled_from([1, 2, "s t"]),
-                "c": st.sampled_from(["x y", "job", "é", "中 1"]),
+                "c": st.sampled_from(["x y", "job", "é", "中 1", "e\u0301"]),
                 "d e": st.sampled_from([0.5, 1e22, -3]),
                 "ab": st.integers(0, 1),  # a key whose name merely starts like another key's
             }
         ),
-        "keys": {"a": st.integers(0, 2), "b": st.sampled_from([1, 2, "s t"]), "c": st.sampled_from(["x y", "job", "é"]), "ab": st.integers(0, 1)},
+        "keys": {"a": st.integers(0, 2), "b": st.sampled_from([1, 2, "s t"]), "c": st.sampled_from(["x y", "job", "é", "e\u0301"]), "ab": st.integers(0, 1)},
         "paths": ["{a}", "a/{a}/{{auto}}", "{a}/{c}", "{b}", "c/{c}/{{auto}}", "{a}/{b}/{c}"],
     },
     "nested": {
